@@ -180,10 +180,14 @@ class InertFuture(cf.Future):
             self._rec.call(f"cancel:{self.idx}", ("cancel", self.idx))
         self.cancel_asked = True
         if self.done():
-            return super().cancel()
-        if self._rec.blocking and not self._sched.cancellable(self.idx):
-            return False  # "running": cannot be cancelled, will complete
-        return super().cancel()
+            ok = super().cancel()
+        elif self._rec.blocking and not self._sched.cancellable(self.idx):
+            ok = False  # "running": cannot be cancelled, will complete
+        else:
+            ok = super().cancel()
+        if ok:
+            self._rec.flat.append(("cancel_ok", self.idx))
+        return ok
 
 
 class InertExecutor(cf.Executor):
@@ -271,6 +275,13 @@ def run_blocking(make_learner, cfg, rng, ask_hook=None, sched=None):
             rec.snaps.append({"inflight": len(futures), "at": len(rec.flat)})
             if not futures:
                 raise NoPoints()
+            early = [f for f in futures if f.done()]
+            if early:
+                # evaluations that finished right after the previous wait had returned: a real wait returns them at once
+                items = [(f.idx, rec.labels(ex.args[f.idx]), "ok" if f.exception() is None else "fail") for f in early]
+                rec.begin("run done " + tok_done(items))
+                rec.flat.append(("done", items))
+                return early, [f for f in futures if f not in early]
             chosen = sched.pick_done([f.idx for f in futures])
             items = []
             for i in chosen:
@@ -281,7 +292,15 @@ def run_blocking(make_learner, cfg, rng, ask_hook=None, sched=None):
             rec.begin("run done " + tok_done(items))
             rec.flat.append(("done", items))
             done = [ex.futs[i] for i in chosen]
-            return done, [f for f in futures if f not in done]
+            rest = [f for f in futures if f not in done]
+            if rest and cfg.get("plate", 0.0) and sched.rng.random() < cfg["plate"]:
+                # ... and one more evaluation finishes just after this wait has returned (it is done, but the runner has not seen
+                # it: if the runner stops now, it is an outstanding evaluation that can be neither cancelled nor dropped)
+                f = sched.rng.choice(rest)
+                lab = rec.labels(ex.args[f.idx])
+                complete(f, lab, sched.outcome(lab))
+                rec.flat.append(("late", f.idx))
+            return done, rest
         # exit: wait for everything that could not be cancelled
         for f in futures:
             if not f.done():
